@@ -70,8 +70,10 @@ def run_one(prog, rows, agg, what=WHAT, known=KNOWN_SWITCHES):
     shape = lang.prog_shape(prog) + "|" + file_kind(rows)
     case = {"prog": prog, "rows": rows}
     if status == "held":
-        nontriv = any(c[0] != "hdr" for c in prog["comps"]) and any(len(r) for r in rows)
-        agg.held(shape, nontriv, sample=info)
+        nontriv = any(c[0] != "hdr" for c in prog["comps"]) and info["lines_scanned"] > 0
+        if "vars" in what:
+            nontriv = nontriv and info["variables_written"] > 0
+        agg.held(shape, nontriv, sample=info if nontriv else None)
         for fn in set().union(*[lang.functions_used(c) for c in prog["comps"]]):
             agg.count("fn:" + fn)
     elif status == "undecided":
